@@ -30,8 +30,9 @@ import (
 const vschedPath = "github.com/a-h/templ/vsched"
 
 var shims = map[string]string{
-	"sync": "github.com/a-h/templ/vshim/vsync",
-	"time": "github.com/a-h/templ/vshim/vtime",
+	"sync":        "github.com/a-h/templ/vshim/vsync",
+	"time":        "github.com/a-h/templ/vshim/vtime",
+	"sync/atomic": "github.com/a-h/templ/vshim/vatomic",
 }
 
 type listPkg struct {
@@ -510,7 +511,7 @@ func main() {
 		rewritePkg(filepath.Join(*repo, parts[0]), *out, only, overlay)
 	}
 	// virtual packages inside the module under test
-	for _, v := range [][2]string{{"vsched/vsched.go", "vsched/vsched.go"}, {"vsched/explore.go", "vsched/explore.go"}, {"vshim/vsync/vsync.go", "_vshim/vsync/vsync.go"}, {"vshim/vtime/vtime.go", "_vshim/vtime/vtime.go"}} {
+	for _, v := range [][2]string{{"vsched/vsched.go", "vsched/vsched.go"}, {"vsched/explore.go", "vsched/explore.go"}, {"vshim/vsync/vsync.go", "_vshim/vsync/vsync.go"}, {"vshim/vtime/vtime.go", "_vshim/vtime/vtime.go"}, {"vshim/vatomic/vatomic.go", "_vshim/vatomic/vatomic.go"}} {
 		overlay[filepath.Join(*repo, v[0])] = filepath.Join(*verif, v[1])
 	}
 	b, _ := json.MarshalIndent(map[string]any{"Replace": overlay}, "", " ")
@@ -520,7 +521,7 @@ func main() {
 }
 
 func needs(src string) bool {
-	for _, k := range []string{"chan ", "chan<-", "<-", "go ", "select {", "\"sync\"", "\"time\""} {
+	for _, k := range []string{"chan ", "chan<-", "<-", "go ", "select {", "\"sync\"", "\"time\"", "\"sync/atomic\""} {
 		if strings.Contains(src, k) {
 			return true
 		}
